@@ -797,8 +797,6 @@ impl Overlay {
 
         let _write_guard = nomt.access_lock.write();
 
-        let marker = self.mark_committed();
-
         {
             let mut shared = nomt.shared.lock();
             if shared.root != self.prev_root() {
@@ -809,7 +807,8 @@ impl Overlay {
                 );
             }
             shared.root = root;
-            shared.last_commit_marker = Some(marker);
+            // only an accepted overlay is marked as committed.
+            shared.last_commit_marker = Some(self.mark_committed());
         }
 
         if let Some(rollback_delta) = rollback_delta {
@@ -855,8 +854,6 @@ impl Overlay {
             return Ok(Some(self));
         }
 
-        let marker = self.mark_committed();
-
         {
             let mut shared = nomt.shared.lock();
             if shared.root != self.prev_root() {
@@ -867,7 +864,8 @@ impl Overlay {
                 );
             }
             shared.root = root;
-            shared.last_commit_marker = Some(marker);
+            // only an accepted overlay is marked as committed.
+            shared.last_commit_marker = Some(self.mark_committed());
         }
 
         if let Some(rollback_delta) = rollback_delta {
